@@ -29,6 +29,10 @@ def std_case(rnd, seed, *, kinds=("gauss", "bimodal", "expedge", "corr"), scenar
             case["reconfig"] = dict(n_particles=cfg["n_particles"] * rnd.choice([2, 3]))
         if rnd.random() < 0.3:
             case["resume_n_total"] = rnd.choice([case["n_total"] * 2, case["n_total"] * 3, max(32, case["n_total"] // 2)])
+    elif case["scenario"] == "resume_final":
+        case["save_every"] = rnd.choice([1, 2, 3])
+        case["resume_which"] = rnd.choice(["final", "final", "latest"])
+        case["resume_n_total"] = rnd.choice([case["n_total"], max(16, case["n_total"] // 2), max(16, case["n_total"] // 4), case["n_total"] * 2])
     elif case["scenario"] == "like_raise":
         case["like_fault"] = dict(kind="like.raise", batch=rnd.randrange(2, 30))
     elif case["scenario"] == "pool_death":
